@@ -264,6 +264,10 @@ fn gen_config(r: &mut Rng) -> SimConfig {
         }
         cfg.channels.push(ch);
     }
+    // "enabling TLS changes the transport only": the behaviour part may run with every connection on the secure seam
+    if r.chance(1, 4) {
+        cfg.all_secure = true;
+    }
     cfg
 }
 
@@ -289,13 +293,13 @@ impl Check for C20 {
     }
     fn assumptions(&self) -> Vec<String> {
         vec![
-            "TLS-on versus TLS-off transcript equality is out of reach (TLS stream types are bound to TcpStream; no socket exists in the simulator)".into(),
+            "the TLS handshake and record layer are out of reach (TLS stream types are bound to TcpStream; no socket exists in the simulator); 'enabling TLS changes the transport only' is checked at the seam: a quarter of the behaviour runs mark every connection secure (is_secure() true) and must follow the same model, WHOIS adding 671".into(),
             "the '-g' branch of main() and the process exit status are not compiled into the harness: 'exits with an error' is observed as MainConfig::new/Cli parsing returning Err, 'a hash printed by -g' as the value of argon2_hash_password".into(),
             "only settings documented in config-example.toml are used (client_limit and admin_email are not documented there)".into(),
         ]
     }
     fn probes(&self) -> Vec<&'static str> {
-        vec!["startup.accepted", "startup.rejected", "mut.truncated", "mut.cli_name_no_dot", "mut.bad_hash_len", "mut.cert_without_key", "behaviour_run"]
+        vec!["startup.accepted", "startup.rejected", "mut.truncated", "mut.cli_name_no_dot", "mut.bad_hash_len", "mut.cert_without_key", "behaviour_run", "behaviour_run.secure_transport"]
     }
 
     fn gen(&self, run_seed: u64, idx: u64, _tier: Tier) -> Trace {
@@ -585,6 +589,9 @@ async fn exec_inner(t: Trace) -> Outcome {
     let mc = started.unwrap();
     let w = World::from_main_config(mc, &t.config).await;
     out.count("behaviour_run", 1);
+    if t.config.all_secure {
+        out.count("behaviour_run.secure_transport", 1);
+    }
     let mut o2 = exec_model_trace_world(t, "C20", w).await;
     o2.cov_keys.extend(out.cov_keys);
     for (k, v) in out.counters {
